@@ -130,6 +130,10 @@ package multiplex
 //@   ensures plain: err == nil && encryptionMethod == 0 ==> o.payloadCipher == nil
 //@   ensures aead: err == nil && encryptionMethod != 0 ==> o.payloadCipher != nil && uf("aead_overhead", uf("aead_sem", o.payloadCipher)) == 16 && uf("aead_noncesize", uf("aead_sem", o.payloadCipher)) == 12
 //@   ensures key: o.sessionKey == sessionKey
+//@   # which cipher under which key bytes (wire compatibility between independent endpoints): kind 1 = AES-GCM, 2 = ChaCha20-Poly1305
+//@   ensures aes256: err == nil && encryptionMethod == 1 ==> uf("aead_sem", o.payloadCipher) == uf("aead_mk", 1, prefix(sessionKey, 32), 32, 0)
+//@   ensures aes128: err == nil && encryptionMethod == 3 ==> uf("aead_sem", o.payloadCipher) == uf("aead_mk", 1, prefix(sessionKey, 16), 16, 0)
+//@   ensures chacha: err == nil && encryptionMethod == 2 ==> uf("aead_sem", o.payloadCipher) == uf("aead_mk", 2, prefix(sessionKey, 32), 32, 0)
 
 // per-frame payload maximum derived from the on-wire limit (C04/C10)
 //@ func MakeSession
